@@ -604,7 +604,9 @@ ChecksOn == \E i \in DOMAIN cfg.children : "checks" \in DOMAIN cfg.children[i] /
 HappyK(c, n) == LET o == ObsKid(c, n) IN
   /\ ChecksOn => ("conditions.0.type" \in DOMAIN o.status /\ o.status["conditions.0.type"] = "s:Ready"
                   /\ "conditions.0.status" \in DOMAIN o.status /\ o.status["conditions.0.status"] = "s:True")
-  /\ (MethodOf("Thing") = "RollingInPlace" /\ "observedGeneration" \in DOMAIN o.status) => o.status["observedGeneration"] = ToString(o.gen)
+  \* observedGeneration counts only when it is reported as a positive number (0 or a non-number = not reported)
+  /\ (MethodOf("Thing") = "RollingInPlace" /\ "observedGeneration" \in DOMAIN o.status
+        /\ o.status["observedGeneration"] \in { ToString(g) : g \in 1..500 }) => o.status["observedGeneration"] = ToString(o.gen)
 OnLatestBefore(c, n) == LatestVal(c) \in ClaimVals(c.store0, c.parent.uid, "Thing", n)
 OnLatestAfter(c, n)  == LatestVal(c) \in ClaimVals(store, c.parent.uid, "Thing", n)
 \* children that this sync moved from an older revision to the latest although they need a real change
@@ -683,6 +685,11 @@ C09_OneClaim ==
   RollEnd => LET c == ctx[E.a] IN
              \A n \in DesNames(c) : (Cardinality(ClaimVals(store, c.parent.uid, "Thing", n)) <= 1
                                       \/ Report("C09", "C09_OneClaim", <<n, ClaimVals(store, c.parent.uid, "Thing", n)>>))
+\* a child is written with revision v's content only once the store records that it belongs to v
+C09_RecordedFirst ==
+  (RollWrite /\ RevField \in DOMAIN E.body.fields /\ E.body.fields[RevField] \in DOMAIN expect.revOrder)
+  => \/ E.body.fields[RevField] \in ClaimVals(store, PUid, E.kind, E.name)
+     \/ Report("C09", "C09_RecordedFirst", <<Key(E), "written at", E.body.fields[RevField], "recorded for", ClaimVals(store, PUid, E.kind, E.name)>>)
 \* no child is ever ahead of the revision recorded for it (checked in EVERY state, i.e. at every crash point)
 MaxOrd(vs) == CHOOSE m \in { expect.revOrder[v] : v \in vs } : \A v \in vs : expect.revOrder[v] <= m
 C09_NotAhead ==
